@@ -44,6 +44,9 @@ Theorem C06_source_split_hostport : forall O hi,
   (let '(h, p) := src_split_hostport O hi in do p' <- p; MOk (h, p')) = split_hostport O hi.
 Proof. exact src_split_hostport_eq. Qed.
 Print Assumptions C06_source_split_hostport.
+Theorem C06_source_parse_host : forall O h, src_parse_host O h = parse_host O h.
+Proof. exact src_parse_host_eq. Qed.
+Print Assumptions C06_source_parse_host.
 (* get_authority(with_userinfo=True) and to_text, where the idna codec answers (enc) *)
 Theorem C06_source_get_authority : forall T O enc u full,
   o_idna_enc O (u_host u) = MOk (enc (u_host u)) ->
